@@ -50,6 +50,10 @@ def _mask_table(ctx) -> Dict[str, Set[str]]:
         raise AnalysisError("anchor-vanished: _IDENTITY_LOGS")
     cfg = ctx.cfg(fn)
     table: Dict[str, Set[str]] = {s: set() for s in ident}
+    # the record being normalised: the local(s) returned by the function other than its parameter
+    outs = {x.value.id for x in walk_no_defs(fn.node) if isinstance(x, ast.Return) and isinstance(x.value, ast.Name) and x.value.id not in fn.params}
+    if not outs:
+        raise AnalysisError("anchor-vanished: normalize_for_identity returns no local copy")
 
     def const_valued(v: ast.AST) -> bool:
         if isinstance(v, ast.Constant):
@@ -62,10 +66,10 @@ def _mask_table(ctx) -> Dict[str, Set[str]]:
         ks: Set[str] = set()
         if n.kind == "stmt" and isinstance(n.ast, ast.Assign) and const_valued(n.ast.value):
             for t in n.ast.targets:
-                if isinstance(t, ast.Subscript) and src(t.value) == "out" and const_str(t.slice):
+                if isinstance(t, ast.Subscript) and src(t.value) in outs and const_str(t.slice):
                     ks.add(const_str(t.slice))
         for c in node_calls(n):
-            if call_tail(c) == "pop" and src(c.func.value) == "out" and c.args and const_str(c.args[0]):
+            if call_tail(c) == "pop" and src(c.func.value) in outs and c.args and const_str(c.args[0]):
                 ks.add(const_str(c.args[0]))
         if not ks:
             continue
@@ -80,7 +84,7 @@ def _mask_table(ctx) -> Dict[str, Set[str]]:
                 if pol:
                     streams = {const_str(test.comparators[0])} if streams is None else streams & {const_str(test.comparators[0])}
                 # the negative side of an earlier `name == X: return` leaves every other stream
-            elif isinstance(test, ast.Compare) and isinstance(test.ops[0], ast.In) and isinstance(test.left, ast.Constant) and src(test.comparators[0]) == "out":
+            elif isinstance(test, ast.Compare) and isinstance(test.ops[0], ast.In) and isinstance(test.left, ast.Constant) and src(test.comparators[0]) in outs:
                 pass  # `"k" in out`: presence test of the key being masked
             elif isinstance(test, ast.Call) and dotted(test.func) == "isinstance":
                 pass  # shape test of the value being masked
@@ -405,7 +409,8 @@ def rule_time(ctx) -> None:
                 continue
             if kind == "cond":
                 stage = _stage_boundary(tf.cfg, n) if fn.qual == RUN_TURN else ""
-                key = f"{fn.qual}/wall-clock-branch:{src(e)[:28]}" + (f"@{stage}" if stage else "")
+                n_branch = 1 + sum(1 for k0 in seen if "/wall-clock-branch" in k0 and (not stage or k0.endswith("@" + stage)))
+                key = f"{fn.qual}/wall-clock-branch" + (f"@{stage}" if stage else f"#{n_branch}") + (f"#{n_branch}" if stage and n_branch > 1 else "")
                 if key in seen:
                     continue
                 seen.add(key)
@@ -467,7 +472,8 @@ def rule_time(ctx) -> None:
     # apply.now: rebuilt from ctx.now_ms or dropped
     fn = ctx.func(RUN_TURN)
     cfg = ctx.cfg(fn)
-    ap = [n for n in cfg.nodes if n.kind == "stmt" and isinstance(n.ast, ast.Assign) and any(isinstance(t, ast.Subscript) and src(t.value) == "_ap" and const_str(t.slice) == "now" for t in n.ast.targets)]
+    ap_names = {c.args[1].id for n in cfg.nodes for c in node_calls(n) if call_tail(c) == "_append_jsonl" and len(c.args) > 1 and const_str(c.args[0]) == "apply.jsonl" and isinstance(c.args[1], ast.Name)}
+    ap = [n for n in cfg.nodes if n.kind == "stmt" and isinstance(n.ast, ast.Assign) and any(isinstance(t, ast.Subscript) and src(t.value) in ap_names and const_str(t.slice) == "now" for t in n.ast.targets)]
     ok = bool(ap) and all("now_ms" in src(n.ast.value) for n in ap)
     ctx.check(ok, "C01.SINK", f"{fn.qual}/apply.now-from-logical-clock", fn.loc(ap[0].ast) if ap else fn.loc(), "apply.now is rebuilt from ctx.now_ms (logical clock)", "apply.now is not derived from the logical clock")
 
@@ -520,9 +526,20 @@ def rule_hist(ctx) -> None:
     cfg = ctx.cfg(inner)
     # returns on the hit path vs the fresh path
     rets = [n for n in cfg.nodes if n.kind == "stmt" and isinstance(n.ast, ast.Return) and isinstance(n.ast.value, ast.Tuple) and len(n.ast.value.elts) == 2 and isinstance(n.ast.value.elts[1], ast.Dict)]
-    hit_r = [n for n in rets if any(p and t == "hit is not None" for t, p in cfg.facts(n))]
-    fresh_r = [n for n in rets if n not in hit_r and any(isinstance(k, ast.Constant) and k.value == "_cache_miss" for k in n.ast.value.elts[1].keys if k is not None)
-               and not any(p and t == "not seeds" for t, p in cfg.facts(n))]
+    rd0 = ctx.rd(inner)
+    # the hit return is guarded by `<h> is not None` where <h> = <cache>.get(<key>)
+    def _is_hit_fact(t: str, at) -> bool:
+        try:
+            e = ast.parse(t, mode="eval").body
+        except SyntaxError:
+            return False
+        if not (isinstance(e, ast.Compare) and isinstance(e.left, ast.Name) and len(e.ops) == 1 and isinstance(e.ops[0], ast.IsNot)):
+            return False
+        return any(isinstance(d.value, ast.Call) and call_tail(d.value) == "get" for d in rd0.reaching(e.left.id, at))
+    hit_r = [n for n in rets if any(p and _is_hit_fact(t, n) for t, p in cfg.facts(n))]
+    # the fresh return is the last one (after the propagation loop): it is not the hit return and carries measured values
+    fresh_r = [n for n in rets if n not in hit_r and any(k is None or not isinstance(v, ast.Constant) for k, v in zip(n.ast.value.elts[1].keys, n.ast.value.elts[1].values))]
+    fresh_r = sorted(fresh_r, key=lambda n: n.lineno)[-1:]
     if not hit_r or not fresh_r:
         raise AnalysisError("anchor-vanished: hit / fresh returns of _t1_one_graph")
 
@@ -545,8 +562,10 @@ def rule_hist(ctx) -> None:
         return out
 
     def cached_copy(k: str, expr: str) -> bool:
-        """the hit path reports the stored value of the same field: hit["metrics"][k] / hit["metrics"].get(k, d)"""
-        return expr.replace("'", '"') in (f'hit["metrics"]["{k}"]',) or expr.replace("'", '"').startswith(f'hit["metrics"].get("{k}"')
+        """the hit path reports the stored value of the same field: <h>["metrics"][k] / <h>["metrics"].get(k, d)"""
+        import re as _re
+        e = expr.replace("'", '"')
+        return bool(_re.fullmatch(r'\w+\["metrics"\]\["%s"\]' % _re.escape(k), e) or _re.match(r'\w+\["metrics"\]\.get\("%s"' % _re.escape(k), e))
 
     fh, ff = fields(hit_r[0]), fields(fresh_r[-1])
     differ = sorted(k for k in fh if k in ff and fh[k] != ff[k] and not cached_copy(k, fh[k]))
@@ -560,10 +579,15 @@ def rule_hist(ctx) -> None:
     for x in walk_no_defs(outer.node):
         if isinstance(x, ast.For) and any(isinstance(st, ast.Assign) and isinstance(st.value, ast.Call) and call_tail(st.value) == "_t1_one_graph" for st in x.body):
             seq_loop = x
-    fold = _fold_map(seq_loop.body, "m", "deltas_for_gid") if seq_loop is not None else {}
+    dvar, mvar = "deltas_for_gid", "m"
+    if seq_loop is not None:
+        for st in seq_loop.body:
+            if isinstance(st, ast.Assign) and isinstance(st.value, ast.Call) and call_tail(st.value) == "_t1_one_graph" and isinstance(st.targets[0], ast.Tuple) and len(st.targets[0].elts) == 2:
+                dvar, mvar = src(st.targets[0].elts[0]), src(st.targets[0].elts[1])
+    fold = _fold_map(seq_loop.body, mvar, dvar) if seq_loop is not None else {}
     var_of = {f: v for v, (f, op, gate) in fold.items()}
     gate_of = {f: gate for v, (f, op, gate) in fold.items()}
-    metrics_lit = [x for x in walk_no_defs(outer.node) if isinstance(x, ast.Assign) and src(x.targets[0]) == "metrics" and isinstance(x.value, ast.Dict)]
+    metrics_lit = [x for x in walk_no_defs(outer.node) if isinstance(x, ast.Assign) and isinstance(x.value, ast.Dict) and {"pops", "cache_hits"} <= {const_str(k) for k in x.value.keys if k is not None}]
     if not metrics_lit:
         raise AnalysisError("anchor-vanished: metrics literal of t1_propagate")
     mkeys = {const_str(k): src(v) for k, v in zip(metrics_lit[0].value.keys, metrics_lit[0].value.values) if k is not None}
